@@ -237,12 +237,12 @@ PLANS["C14"] = {
     "level": "fault_enumeration",
     "rule": "corpus of scenarios (typing at end/inside, multi-byte, Backspace, Left/Right, Up/Down with history, Tab unique/ambiguous/partial/no match, Enter with silent/writing/prompt-changing handlers, every parse-error kind, help list/command/option/nested/unknown/hidden in plain and grouped sets, Cli::write with 0-3 lines, set_prompt, build) x three command sets; "
             "each target is run fault-free to count its sink calls, then EVERY sink call position is failed in turn, once and permanently (sticky); clauses: that error is returned by the call during which the sink failed, no panic, the line is as before / as the key leaves it / empty with all structural invariants, "
-            "after repair `zz` + Enter dispatches exactly the tokens of the line with zz inserted at the cursor, Up recalls it. evaluation = one (scenario, position, mode) run plus its follow-up checks; distinct = hash of (scenario, position, mode); thorough adds three more buffer-size/prompt configurations per scenario",
+            "after repair `zz` + Enter dispatches exactly the tokens of the line with zz inserted at the cursor, Up recalls it. evaluation = one (scenario, position, mode) run plus its follow-up checks; distinct = hash of (scenario, position, mode); thorough adds three more buffer-size/prompt configurations per scenario. Stage 2: random scenarios (a random session prefix as setup, the next key or application call as target) with the same complete position enumeration and clauses: 48k (quick) / 1M (thorough) scenarios",
     "assumptions": ["an application that writes through core::fmt::Write cannot see the sink's error value (fmt::Error carries none); the harness handler maps it to a marker value which the library must pass on unchanged"],
     "exhaustive": {"quick": True, "thorough": True},
     "exhaustive_note": {"quick": "every write/flush call position of every scenario of the corpus, both failure modes", "thorough": "the same for four buffer/prompt configurations per scenario"},
-    "min_counts": {"quick": {"c14.scenarios": 130, "c14.positions_fired": 2000}, "thorough": {"c14.scenarios": 500, "c14.positions_fired": 8000}},
-    "stages": [{"variant": "dbg", "workload": "C14", "shards": 16}],
+    "min_counts": {"quick": {"c14.scenarios": 130, "c14.positions_fired": 2000, "c14.random.scenarios": 30000}, "thorough": {"c14.scenarios": 500, "c14.positions_fired": 8000, "c14.random.scenarios": 600000}},
+    "stages": [{"variant": "dbg", "workload": "C14", "shards": 16}, {"variant": "dbg", "workload": "C14-random"}],
 }
 MANIFEST_TEXT["C14"] = {
     "technique": "fault injection at the embedded_io::Write sink: every write/flush call position of every scenario failed in turn (once / sticky), monitors on the returned Result, hooked line, later dispatch and recall",
